@@ -113,6 +113,27 @@ std::vector<i64> S2_set(int w, bool with_nan)
   std::sort(out.begin(), out.end()); out.erase(std::unique(out.begin(), out.end()), out.end());
   return out;
   }
+std::vector<i64> D_set(int level, bool with_nan)
+  {
+  std::vector<i64> out;
+  auto compose = [&](int bits, std::vector<u64> const& digs) {
+    int nd = 64 / bits; size_t n = digs.size(), tot = 1; for( int i = 0; i < nd; ++i ) tot *= n;
+    for( size_t k = 0; k < tot; ++k )
+      {
+      u64 v = 0; size_t kk = k;
+      for( int i = 0; i < nd; ++i ) { v |= digs[kk % n] << (i * bits); kk /= n; }
+      i64 s = static_cast<i64>(v);
+      if( s == INT64_MIN ) continue;
+      if( s >= FX_LOWEST && s <= FX_MAX ) { out.push_back(s); out.push_back(-s); }
+      }
+    };
+  compose(32, { 0, 1, 2, 3, 0x7ffffffeull, 0x7fffffffull, 0x80000000ull, 0x80000001ull, 0xfffffffeull, 0xffffffffull, 0x55555555ull, 0xaaaaaaaaull, 0xffffull, 0x10000ull, 0xffff0000ull, 0x10001ull });
+  if( level == 1 ) compose(16, { 0, 1, 0x7fff, 0x8000, 0xfffe, 0xffff });
+  if( level >= 2 ) compose(16, { 0, 1, 2, 0x7fff, 0x8000, 0x8001, 0xfffe, 0xffff });
+  if( with_nan ) { out.push_back(FX_NAN); out.push_back(-FX_NAN); }
+  std::sort(out.begin(), out.end()); out.erase(std::unique(out.begin(), out.end()), out.end());
+  return out;
+  }
 std::vector<i64> merge_sets(std::vector<i64> a, std::vector<i64> const& b)
   {
   a.insert(a.end(), b.begin(), b.end());
@@ -120,6 +141,29 @@ std::vector<i64> merge_sets(std::vector<i64> a, std::vector<i64> const& b)
   return a;
   }
 
+std::vector<i64> const& history_seeds()
+  {
+  static const std::vector<i64> v { 0, 1, 65536, 9 * 65536, 589824 + 1, 98304, 39322, 51472, 102944, 205887, 411774, 1 << 20, 0x12345, 0x7fff, 0xffff, 0xffffffffll, 0x100000000ll, 0x123456789all, (1ll << 40) + 7,
+                                    (1ll << 46) + 0x9000, 0x7fffffffffffll, 1ll << 47, 0x5555555555555555ll, FX_MAX,
+                                    -1, -65536, -39322, -205887, -0x12345, -0x123456789all, -(1ll << 46) - 0x9000, FX_LOWEST };
+  return v;
+  }
+std::vector<i64> alias_args(i64 a, i64 lo, i64 hi)
+  {
+  std::vector<i64> out;
+  auto add = [&](i128 v) { if( v >= lo && v <= hi && v >= FX_LOWEST && v <= FX_MAX ) out.push_back(static_cast<i64>(v)); };
+  add(a); add(-static_cast<i128>(a));
+  for( int k = 0; k <= 62; ++k )
+    {
+    i128 p = static_cast<i128>(1) << k;
+    for( i128 j : { static_cast<i128>(1), static_cast<i128>(-1), static_cast<i128>(2), static_cast<i128>(-3), static_cast<i128>(0x1234), static_cast<i128>(-0x4321) } ) add(a + j * p);   // equal modulo 2^k
+    u64 low = (k == 0) ? 0 : ((1ull << k) - 1);
+    u64 ua = static_cast<u64>(a);
+    add(static_cast<i64>(ua ^ low)); add(static_cast<i64>(ua & ~low)); add(static_cast<i64>((ua & ~low) | (0x5555555555555555ull & low)));    // equal above bit k
+    }
+  std::sort(out.begin(), out.end()); out.erase(std::unique(out.begin(), out.end()), out.end());
+  return out;
+  }
 std::vector<i64> filter_abs_below(std::vector<i64> const& v, i64 bound)
   {
   std::vector<i64> r;
@@ -258,9 +302,9 @@ void Recorder::write_json(FILE* f, Options const& o, double wall) const
     for( size_t k = 0; k < c.ex.size(); ++k )
       {
       Example const& e = c.ex[k];
-      std::fprintf(f, "%s\n   {\"entry\": \"%s\", \"cfg\": \"%s\", \"shape\": \"%s\", \"expected\": \"%s\", \"got\": \"%s\", \"note\": \"%s\", \"rcase\": \"%s\", \"inputs\": {",
+      std::fprintf(f, "%s\n   {\"entry\": \"%s\", \"cfg\": \"%s\", \"shape\": \"%s\", \"expected\": \"%s\", \"got\": \"%s\", \"note\": \"%s\", \"rcase\": \"%s\", \"order\": %llu, \"inputs\": {",
         k ? "," : "", jesc(e.entry).c_str(), jesc(e.cfg).c_str(), jesc(e.shape).c_str(), jesc(e.expected).c_str(), jesc(e.got).c_str(),
-        jesc(e.note).c_str(), jesc(e.rcase).c_str());
+        jesc(e.note).c_str(), jesc(e.rcase).c_str(), static_cast<unsigned long long>(e.order));
       for( size_t j = 0; j < e.inputs.size(); ++j )
         std::fprintf(f, "%s\"%s\": \"%s\"", j ? ", " : "", jesc(e.inputs[j].first).c_str(), jesc(e.inputs[j].second).c_str());
       std::fprintf(f, "}, \"rin\": [");
@@ -275,6 +319,8 @@ void Recorder::write_json(FILE* f, Options const& o, double wall) const
 //------------------------------------------------------------------ main
 static std::vector<PropertyDef>& registry() { static std::vector<PropertyDef> r; return r; }
 void register_property(PropertyDef const& d) { registry().push_back(d); }
+static std::map<std::string,judge_fn>& judges() { static std::map<std::string,judge_fn> r; return r; }
+void register_judge(const char* id, judge_fn fn) { judges()[id] = fn; }
 
 static std::vector<std::string> split(std::string const& s, char c)
   {
@@ -299,6 +345,7 @@ int main(int argc, char** argv)
     else if( a == "--out" ) o.out = next();
     else if( a == "--threads" ) o.threads = std::atoi(next().c_str());
     else if( a == "--deadline" ) o.deadline_s = std::atof(next().c_str());
+    else if( a == "--judge" ) o.judge_file = next();
     else if( a == "--replay" ) { o.replay = true; o.rcase = next(); o.rcfg = next(); while( i + 1 < argc ) o.rin.push_back(argv[++i]); }
     else if( o.prop.empty() ) o.prop = a;
     else { std::fprintf(stderr, "unknown argument %s\n", a.c_str()); return 2; }
@@ -312,6 +359,33 @@ int main(int argc, char** argv)
   Recorder rec;
   rec.prop_id = o.prop;
   g_rec = &rec;
+  if( !o.judge_file.empty() )
+    {   // lines: <idx> <kind> <nargs> <arg>... <value>   (unsigned decimal 64-bit words)
+    auto it = judges().find(o.prop);
+    if( it == judges().end() ) { std::fprintf(stderr, "INTERNAL: property %s has no pointwise judge\n", o.prop.c_str()); return 2; }
+    Shim* s = load_shim(o.shim_dir, o.cfgs.at(0));
+    FILE* in = std::fopen(o.judge_file.c_str(), "r");
+    if( !in ) { std::fprintf(stderr, "cannot read %s\n", o.judge_file.c_str()); return 2; }
+    char kind[64]; unsigned long long idx, v; int na; u64 n = 0, unhandled = 0;
+    while( std::fscanf(in, "%llu %63s %d", &idx, kind, &na) == 3 )
+      {
+      std::vector<u64> a(static_cast<size_t>(na));
+      for( int i = 0; i < na; ++i ) { unsigned long long t; if( std::fscanf(in, "%llu", &t) != 1 ) { std::fprintf(stderr, "INTERNAL: malformed judge file\n"); return 2; } a[static_cast<size_t>(i)] = t; }
+      if( std::fscanf(in, "%llu", &v) != 1 ) { std::fprintf(stderr, "INTERNAL: malformed judge file\n"); return 2; }
+      bool handled = false;
+      int sg = guarded([&]{ handled = it->second(s, rec, kind, a, v, idx); });
+      if( sg ) { std::fprintf(stderr, "INTERNAL: judge trapped on %s\n", kind); return 2; }
+      if( !handled ) { ++unhandled; if( unhandled <= 3 ) std::fprintf(stderr, "unjudged: %s/%d\n", kind, na); }
+      ++n;
+      }
+    std::fclose(in);
+    rec.add_states(n, n, n - unhandled); rec.count("judge.items", n); rec.count("judge.unhandled", unhandled);
+    FILE* f = o.out.empty() ? stdout : std::fopen(o.out.c_str(), "w");
+    if( !f ) { std::fprintf(stderr, "cannot write %s\n", o.out.c_str()); return 2; }
+    rec.write_json(f, o, now_s() - g_start);
+    if( f != stdout ) std::fclose(f);
+    return unhandled ? 2 : (rec.violations() ? 1 : 0);
+    }
   if( o.replay )
     {
     Shim* s = o.rcfg.rfind("probe-", 0) == 0 ? nullptr : load_shim(o.shim_dir, o.rcfg);
@@ -321,6 +395,13 @@ int main(int argc, char** argv)
       int sg = guarded([&]{ if( o.rcase == "trap_un" ) s->fm_un(op, a); else s->fm_bin(op, a, b); });
       rec.add_states(1,1,1);
       if( sg ) rec.viol(rec.cls(o.prop + ".trap"), 0, [&]{ Example e; e.entry = "entry point #" + std::to_string(op); e.cfg = o.rcfg; e.expected = "returns normally"; e.got = "killed by signal " + std::to_string(sg); e.rcase = o.rcase; e.rin = o.rin; return e; });
+      }
+    else if( o.rcase == "althist" )
+      {   // two-call history: the first call, then the property's own replay of the second call on the same thread
+      int op = static_cast<int>(parse_i64(o.rin.at(0))); i64 a = parse_i64(o.rin.at(1));
+      Options o2 = o; o2.rcase = o.rin.at(2); o2.rin.assign(o.rin.begin() + 3, o.rin.end());
+      guarded([&]{ s->fm_un(op, a); });
+      def->replay(o2, s, rec);
       }
     else
     def->replay(o, s, rec);
